@@ -255,8 +255,64 @@ Fixpoint pmatches (fuel : nat) (pt : pattern) (pkg : str) : option bool :=
 Definition nLB (s : str) : nat := count_occ N.eq_dec s LB.
 Definition fuel_for (p : str) : nat := S (nLB p).
 
+(* ---------- alternate_match as the code does it: an explicit work list ----------
+   Since the repair of the stack overflow on patterns with very many groups the
+   implementation no longer recurses through Pattern::matches: patterns still to
+   be examined are kept on a Vec used as a stack.  [alt_work] transcribes that
+   loop ([fuel] = number of loop iterations); AltProofs.worklist_refines proves
+   that it computes what the recursive description [pmatches] computes. *)
+(* Pattern::matches on a fully expanded pattern (no '{'): never an alternate *)
+Definition nonalt_matches (pt : pattern) (pkg : str) : option bool :=
+  if negb (quick (ptext pt) pkg) then Some false
+  else match pkind_of pt with
+       | KSimple => Some (eqs (ptext pt) pkg)
+       | KDewey d => Some (dewey_matches d pkg)
+       | KGlob ts => Some (glob_matches ts pkg)
+       | KAlt => None      (* would re-enter alternate_match; unreachable, see worklist_leaf *)
+       end.
+Fixpoint alt_work (fuel : nat) (work : list str) (pkg : str) : option bool :=
+  match fuel with
+  | O => None
+  | S f =>
+      match work with
+      | [] => Some false
+      | p :: rest =>
+          if negb (quick p pkg) then alt_work f rest pkg
+          else match rfind LB p with
+               | None =>
+                   match pattern_new p with
+                   | Val pt =>
+                       match nonalt_matches pt pkg with
+                       | None => None
+                       | Some true => Some true
+                       | Some false => alt_work f rest pkg
+                       end
+                   | _ => alt_work f rest pkg
+                   end
+               | Some _ =>
+                   match string_step p with
+                   | None => alt_work f rest pkg
+                   | Some cands => alt_work f (cands ++ rest) pkg
+                   end
+               end
+      end
+  end.
+Definition pmatches_w (fuel : nat) (pt : pattern) (pkg : str) : option bool :=
+  if negb (quick (ptext pt) pkg) then Some false
+  else match pkind_of pt with
+       | KAlt => alt_work fuel [ptext pt] pkg
+       | _ => nonalt_matches pt pkg
+       end.
+
 Inductive mobs := MErr (e : pat_err) | MBool (b : bool) | MPanic | MFuel.
 (* Pattern::new(p) then .matches(pkg) *)
+Definition pm_w (fuel : nat) (p pkg : str) : mobs :=
+  match pattern_new p with
+  | Val pt => match pmatches_w fuel pt pkg with Some b => MBool b | None => MFuel end
+  | Fail e => MErr e
+  | Panic _ => MPanic
+  | OutOfFuel => MFuel
+  end.
 Definition pm (p pkg : str) : mobs :=
   match pattern_new p with
   | Val pt => match pmatches (fuel_for p) pt pkg with Some b => MBool b | None => MFuel end
